@@ -38,7 +38,9 @@ theorem C02_number_rt_int (data off len : Nat) (signed : Bool) (r mn mx o : Int)
     (hdec : decodeNumber data off len signed (Lit.ofInt r) (Lit.ofInt mn) (Lit.ofInt mx) (Lit.ofInt o) = .ok (some v)) :
     ∃ n, encodeNumber (numVal v) len signed (Lit.ofInt r) (Lit.ofInt o) = .ok n ∧
       contrib n len = Straight.decode_int data off len := by
-  exact Enc02.number_rt_int data off len signed _ _ _ _ v rfl hr rfl hl1 hl hs hdec
+  -- with an Offset the field is read unsigned (`effSigned`), so `hs` is only needed without one
+  exact Enc02.number_rt_int data off len signed _ _ _ _ v rfl hr rfl hl1 hl
+    (fun h => hs (Dec01.effSigned_le _ _ h)) hdec
 
 /-- **NUMBER / TIME / DURATION, decimal resolution, ≤ 48 bits**: exact round trip of the tick count
 (`round((raw × res) / res) = raw` in binary64) -/
@@ -65,7 +67,8 @@ theorem C02_na_time_rt (data off len : Nat) (signed : Bool) (res mn mx : Lit)
     (hdec : decodeNumber data off len signed res mn mx (Lit.ofInt 0) = .ok none) :
     contrib (naTime len signed) len = Straight.decode_int data off len := by
   rw [Enc02.naTime_eq len signed hl]
-  exact Enc02.na_rt data off len signed res mn mx _ (by omega) hdec
+  have h := Enc02.na_rt data off len signed res mn mx _ (by omega) hdec
+  rwa [Dec01.effSigned_zero] at h
 
 /-- **TIME / DURATION keep their exact tick count** (the encoder divides the reported raw value by
 the resolution and rounds): decimal resolution -/
